@@ -411,6 +411,19 @@ Theorem C19_submdspan_extents_pairs : forall t e sl, wf_ity t -> wf_ext t e ->
 Proof. exact sub_extents_p_spec. Qed.
 Print Assumptions C19_submdspan_extents_pairs.
 
+(* first_ / last_ of [mdspan.sub.helpers] (detail::submdspan_first / submdspan_last, instantiable for every dimension
+   since fix 9ae67a4): under the precondition of [mdspan.sub.extents] they return the standard's values without
+   overflow, delimit a range inside the source dimension, and its length is the extent submdspan_extents keeps *)
+Theorem C19_submdspan_first_last : forall t x s, wf_ity t -> 0 <= x <= imax t -> slice_ok s x ->
+  sub_first t s = first_ s /\ sub_last t x s = Some (last_ x s)
+  /\ 0 <= first_ s <= last_ x s /\ last_ x s <= x
+  /\ match s with
+     | SlIndex _ => last_ x s - first_ s = 1
+     | _ => [last_ x s - first_ s] = sub_shape [s] [x]
+     end.
+Proof. exact sub_first_last_spec. Qed.
+Print Assumptions C19_submdspan_first_last.
+
 (** * span *)
 (* subspan(offset, count): offset + count <= size -> exactly those elements of the parent, inside it *)
 Theorem C19_span_subspan : forall (A : Type) (buf : list A) s o c, sp_valid buf s -> 0 <= o -> 0 <= c ->
@@ -492,6 +505,19 @@ Theorem C19_span_index : forall s i, 0 <= i ->
   (i < s_size s -> sp_index s i = Ok (s_off s + i)) /\ (s_size s <= i -> sp_index s i = Contract).
 Proof. exact sp_index_spec. Qed.
 Print Assumptions C19_span_index.
+
+(* the span constructors (pointer + count, sized range, other span) with the precondition added by fix 721a088: on a
+   span type of static extent a count different from the extent fires the precondition, otherwise the span is
+   exactly [ptr, ptr + count); the results of first/last/subspan/as_bytes (all sp_consistent) always pass it *)
+Theorem C19_span_ctor : forall ext ptr sz,
+  (sp_ctor ext ptr sz = Contract <-> exists n, ext = Some n /\ sz <> n)
+  /\ (forall r, sp_ctor ext ptr sz = Ok r -> s_off r = ptr /\ s_size r = sz /\ s_ext r = ext /\ sp_consistent r)
+  /\ (forall r, sp_consistent r -> sp_ctor (s_ext r) (s_off r) (s_size r) = Ok r).
+Proof.
+  intros ext ptr sz. destruct (sp_ctor_spec ext ptr sz) as [H1 H2].
+  exact (conj H1 (conj H2 sp_ctor_internal)).
+Qed.
+Print Assumptions C19_span_ctor.
 
 Theorem C19_span_front_back : forall s, 0 <= s_size s ->
   (sp_front s = Contract <-> s_size s = 0) /\ (sp_back s = Contract <-> s_size s = 0)
